@@ -137,8 +137,8 @@ def cases(tier):
            ("noci", 3, (1, 1), 1, 1, {"ndets": 2})]
     if tier == "thorough":
         inv += [("rhf", 3, (2, 2), 1, 2, {}), ("uhf", 3, (2, 1), 2, 2, {}), ("uhf", 3, (2, 1), 1, 3, {}), ("ghf", 3, (2, 1), 1, 1, {"ident": 1}),
-                ("noci", 3, (2, 1), 1, 0, {"ndets": 2}), ("rhf", 3, (1, 1), 1, "sym", {}),
-                ("noci", 2, (1, 1), 1, "sym", {"ndets": 2})]
+                ("noci", 3, (2, 1), 1, 0, {"ndets": 2}),
+                ("noci", 2, (1, 1), 1, "sym", {"ndets": 2})]  # rhf (3;1,1) with a symbolic rotation exceeds the polynomial budget (measured)
     for kind, norb, nelec, nchol, rot, opt in inv:
         out.append({"type": "inv", "kind": kind, "norb": norb, "nelec": list(nelec), "nchol": nchol, "rot": rot, "opt": opt})
     return out
